@@ -10,9 +10,16 @@ EXTRA = [[], ["--side-by-side"], ["--line-numbers"], ["--navigate"], ["--diff-so
          ["--hunk-header-decoration-style", "box ul"], ["--commit-style", "omit"], ["--file-style", "omit"],
          ["--hunk-header-style", "omit"], ["--commit-style", "raw"], ["--file-style", "red"], ["--hunk-header-style", "syntax"],
          ["--relative-paths"], ["--hyperlinks"], ["--max-line-distance", "0.3"], ["--line-buffer-size", "1"], ["--width", "20"],
-         ["--keep-plus-minus-markers"], ["--zero-style", "raw"], ["--minus-style", "syntax"]]
+         ["--keep-plus-minus-markers"], ["--zero-style", "raw"], ["--minus-style", "syntax"],
+         # decoration words inside the element's own style string (the older syntax), all three elements
+         ["--file-style", "yellow box"], ["--commit-style", "bold yellow box ul"], ["--hunk-header-style", "blue box"],
+         ["--file-style", "red underline overline"], ["--hunk-header-style", "syntax overline"], ["--commit-style", "raw box"],
+         ["--hunk-header-style", "file line-number syntax box"], ["--tabs", "4"], ["--tabs", "0"], ["--hunk-label", "§"],
+         ["--features", "decorations"], ["--features", "line-numbers side-by-side"], ["--dark"], ["--light"],
+         ["--word-diff-regex", "."], ["--wrap-max-lines", "0", "--side-by-side"], ["--max-line-length", "20"]]
 # options that explicitly override one of the presets the mode implies: the text may then change, the line count may not
-OVERRIDES_TEXT = {"--line-numbers", "--commit-style", "--file-style", "--hunk-header-style", "--tabs", "--hyperlinks", "--relative-paths"}
+OVERRIDES_TEXT = {"--line-numbers", "--commit-style", "--file-style", "--hunk-header-style", "--tabs", "--hyperlinks", "--relative-paths",
+                  "--features", "--max-line-length", "--hunk-label"}
 
 GIT_COLOURS = {"-": "\x1b[31m", "+": "\x1b[32m", "@": "\x1b[36m", "d": "\x1b[1m", "i": "\x1b[1m"}
 
